@@ -1031,7 +1031,13 @@ fn mutate(rng: &mut Rng, p: &mut Phys) -> Option<String> {
             let v = matches!(p.ty, Ty::Null) && p.len.checked_add(p.offset).is_some()
                 || matches!(&p.ty, Ty::Struct(f) if f.is_empty()) && p.nulls.is_none() && p.len.checked_add(p.offset).is_some();
             let ree = matches!(p.ty, Ty::Ree(..)) && p.len.checked_add(p.offset).is_some();
-            Some(format!("mut:huge{}{}{}", how, if v { " valid" } else { "" }, if ree { " kf:ree-len-beyond-run-ends" } else { "" }))
+            let no_ovf = p.len.checked_add(p.offset).is_some();
+            let kf = match &p.ty {
+                Ty::Struct(f) if !f.is_empty() && no_ovf => " kf:struct-child-len-offset",
+                Ty::Fsl(n, _, _) if *n > 0 && no_ovf => " kf:fsl-child-len-offset",
+                _ => "",
+            };
+            Some(format!("mut:huge{}{}{}{}", how, if v { " valid" } else { "" }, if ree { " kf:ree-len-beyond-run-ends" } else { "" }, kf))
         }
         7 => {
             // short buffer
@@ -1266,7 +1272,7 @@ fn gen_layout_case(rng: &mut Rng) -> (String, String) {
             if let Some(t) = mutate(rng, node) {
                 // kf tags are only meaningful when the mutated node is reachable from the root window;
                 // keep them for the root, replace for inner nodes (inner windows may not be addressed)
-                let t = if k == 0 { t } else { t.replace("kf:", "inner-kf:") + " inner" };
+                let t = if k == 0 { t } else { t + " inner" };
                 tags.push_str(&format!(" {} mtype:{} nt", t, nty));
                 p = q;
                 mutated = true;
@@ -1391,7 +1397,9 @@ fn gen_typed_case(rng: &mut Rng) -> (String, String) {
                     if q.offset != 0 || q.nc.is_some() { continue; }
                     if t.contains("mut:buffer-added") || t.contains("mut:nulls-not-allowed") { continue; }
                     if t.contains("mut:child-type") && (kind == "dict" || kind == "run") { continue; }
-                    tags.push_str(&format!(" {} nt", t.replace("kf:", "untyped-kf:")));
+                    if (t.contains("mut:child-added") || t.contains("mut:child-dropped")) && kind == "bytes" { continue; }
+                    let extra_tag = if t.contains("mut:child-type") && kind == "union" { " kf:union-try-new-child-type" } else { "" };
+                    tags.push_str(&format!(" {}{} nt", t.replace("kf:", "untyped-kf:"), extra_tag));
                     p = q;
                     break;
                 }
@@ -1420,7 +1428,8 @@ fn gen_nonnull_offset_case(rng: &mut Rng) -> (String, String) {
     let ty = if per == 0 { Ty::Struct(vec![(false, Ty::Prim(1))]) } else { Ty::Fsl(per, Box::new(Ty::Prim(1)), false) };
     let k = per.max(1);
     let n = 1 + pick_len(rng).min(70);
-    let off = if rng.chance(1, 5) { 0 } else { 1 + rng.usize(if rng.bool() { 3 } else { 70 }) };
+    let span = if rng.bool() { 3 } else { 70 };
+    let off = if rng.chance(1, 5) { 0 } else { 1 + rng.usize(span) };
     let total = off + n;
     let mut p = gen_valid(rng, &ty, n, off, false, 0);
     let mut nb = rng.bytes((total + 7) / 8);
